@@ -213,6 +213,9 @@ class RebuildCheck:
                 "raising, skipping or sanitising are all acceptable; only "
                 "effects outside the destination are judged (snapshot + audit "
                 "hook over all paths)",
+                "destinations spelled relative to the working directory: "
+                "histories of two rebuilds with a chdir in between, the second "
+                "metafile aiming at the first destination (library and CLI)",
             ],
         }[pid]
         self.rule = {
@@ -240,6 +243,8 @@ class RebuildCheck:
                 for ni in range(len(self.hostile_alphabet("X")) + 1):
                     gs.append({"kind": "hostile", "version": ver, "ni": ni,
                                "seed": seed})
+                gs.append({"kind": "hostile-rel", "version": ver,
+                           "seed": seed})
             return gs
         if self.id == "C14":
             for fam in FAMILIES:
@@ -885,10 +890,105 @@ class RebuildCheck:
                     "cases": n})
         return found
 
+    def run_hostile_rel(self, g, res):
+        """Destinations given relative to the working directory, in a history
+        of two rebuilds with a chdir in between: the second, hostile metafile
+        aims at the place the first rebuild was allowed to write to."""
+        seed, ver = g["seed"], g["version"]
+        found = []
+        P = 16384
+        data = world.content(seed, 0, P + 3)
+
+        def meta_of(name, tree):
+            if ver == 1:
+                return model.ref_v1(name, tree, P)
+            if ver == 2:
+                return model.ref_v2(name, tree, P, REAL_B)
+            return model.ref_hybrid(name, tree, P, REAL_B)
+
+        hostiles = {
+            "elements": lambda other: ("x", {("..", "..", "..", other, "out",
+                                             "pwn.bin"): data,
+                                            ("ok.bin",): data}),
+            "name": lambda other: (f"../../{other}/out", {("pwn.bin",): data,
+                                                          ("ok.bin",): data}),
+            "overwrite": lambda other: (f"../../{other}/out/top",
+                                        {("hello.bin",): data + data,
+                                         ("ok.bin",): data}),
+        }
+        for hname, mk in hostiles.items():
+            for first_wd, second_wd in (("w1", "w2"), ("w2", "w1")):
+                for first_dest in ("out", "./out", "<ABS>"):
+                    for route in ("lib", "cli"):
+                        sb = world.fresh_dir("c19r_")
+                        for w_ in ("w1", "w2"):
+                            os.makedirs(os.path.join(sb, w_))
+                        search = os.path.join(sb, "search")
+                        world.write_file(os.path.join(search, "hello.bin"),
+                                         data)
+                        world.write_file(os.path.join(search, "pwn.bin"), data)
+                        world.write_file(os.path.join(search, "ok.bin"), data)
+                        world.write_file(os.path.join(search, "big",
+                                                      "hello.bin"),
+                                         data + data)
+                        mb = os.path.join(sb, "benign.torrent")
+                        with open(mb, "wb") as f:
+                            f.write(bencode.encode(meta_of(
+                                "top", {("hello.bin",): data})))
+                        hn, htree = mk(first_wd)
+                        mh = os.path.join(sb, "hostile.torrent")
+                        with open(mh, "wb") as f:
+                            f.write(bencode.encode(meta_of(hn, htree)))
+                        old = os.getcwd()
+                        case = {"kind": "hostile-rel", "version": ver,
+                                "hostile": hname, "first": first_wd,
+                                "first_dest": first_dest, "route": route,
+                                "seed": seed}
+                        try:
+                            os.chdir(os.path.join(sb, first_wd))
+                            d1 = first_dest if first_dest != "<ABS>" else \
+                                os.path.join(sb, first_wd, "out")
+                            st1, _ = run_rebuild([mb], [search], d1, route)
+                            os.chdir(os.path.join(sb, second_wd))
+                            before = world.snapshot(sb)
+                            st2, _ = run_rebuild([mh], [search], "out", route)
+                            after = world.snapshot(sb)
+                        finally:
+                            os.chdir(old)
+                        res.transitions += 2
+                        res.evals += 1
+                        res.states += 1
+                        res.validated += 1
+                        drel = os.path.join(second_wd, "out")
+                        ch = sorted(k for k in set(before) | set(after)
+                                    if before.get(k) != after.get(k)
+                                    and not (k == drel or
+                                             k.startswith(drel + os.sep)))
+                        first_ok = os.path.isfile(os.path.join(
+                            sb, first_wd, "out", "top", "hello.bin")) or \
+                            any(k.startswith(os.path.join(first_wd, "out"))
+                                for k in before)
+                        if not first_ok:
+                            res.extra["relative_history_first_step_void"] += 1
+                        res.outcomes[("changed-outside" if ch else "ok") +
+                                     "/rel"] += 1
+                        if ch:
+                            found.append((
+                                f"C19|v{ver}|changed-outside-destination|"
+                                f"relative-destination-after-chdir|{hname}",
+                                case, {"changed": ch[:5], "first": st1,
+                                       "second": st2}))
+                        shutil.rmtree(sb, ignore_errors=True)
+        return found
+
     # ------------------------------------------------------------ driver
     def run_group(self, g):
         res = core.Result()
         seed = g["seed"]
+        if g["kind"] == "hostile-rel":
+            for sig, case, d in self.run_hostile_rel(g, res):
+                res.violation(sig, case, d)
+            return res
         if g["kind"] == "hostile":
             for sig, case, d in self.run_hostile(g, res):
                 res.violation(sig, case, d)
@@ -948,7 +1048,12 @@ class RebuildCheck:
     def replay(self, case):
         res = core.Result()
         kind = case.get("kind", "world")
-        if kind == "hostile":
+        if kind == "hostile-rel":
+            found = [f for f in self.run_hostile_rel(
+                {"seed": case["seed"], "version": case["version"]}, res)
+                if all(f[1].get(k) == case.get(k) for k in
+                       ("hostile", "first", "first_dest", "route"))]
+        elif kind == "hostile":
             found = [f for f in self.run_hostile(
                 {"seed": case["seed"], "version": case["version"],
                  "ni": case["ni"]}, res)
